@@ -79,7 +79,7 @@ def run(ctx):
     ctx.rule = ('toy mode: random integer signals (6 families, length 3..40) x 6 integer toy envelope rules x random thresholds / steps / '
                 'iteration limits / caps through the real emd.sift.sift vs Toys.run_toy_sift (bit exact) + the completeness oracle on the '
                 'same runs; real numerics: 8 signal families x {sd,rilling,fixed} x step x {splrep,pchip,mono_pchip} x pad 1..4, no cap, no '
-                'energy threshold: completeness / non-oscillatory residual oracle; the same oracle on zigzags of 5..14 samples (extrema on samples 1 and N-2).  non-trivial = at least two components and the sift ended '
+                'energy threshold: completeness / non-oscillatory residual oracle; the same oracle on zigzags of 5..14 samples (extrema on samples 1 and N-2) and on two- to three-cycle tones of 16..80 samples x pad width 1..3 x interpolation method.  non-trivial = at least two components and the sift ended '
                 'of its own accord')
     # the translation tie: the control skeletons of get_next_imf / sift / mask_sift are regenerated from the source and the
     # refinement theorems to the models used by this property's theorems are re-checked
@@ -150,6 +150,27 @@ def run(ctx):
             ctx.problem('impl-violation', 'sift', f,
                         input=dict(kind='real', signal=[float(v) for v in x], sift_thresh=1e-8, imf_opts=imf_opts,
                                    envelope_opts=envelope_opts, extrema_opts=extrema_opts, dtype=None), tags=dict(mode='real', family='zigzag'))
+    # ---- few extrema: two- to three-cycle tones (+ ramp / slow wave) of 16..80 samples with every pad width, so that the padded
+    # extrema are as few as the interpolants allow (pad_width 1 on two maxima = four knots)
+    for i in range(45 if ctx.quick() else 1200):
+        N = int(zrs.randint(16, 81))
+        t = np.arange(N)
+        x = np.sin(2 * np.pi * zrs.choice([2, 2, 2.5, 3]) * t / N + zrs.uniform(0, 2 * np.pi)) + zrs.choice([0, 0.01, -0.02]) * t
+        if i % 4 == 3:
+            x = x + 0.5 * np.sin(2 * np.pi * t / (3 * N))
+        imf_opts = {} if i % 2 else siftcore.real_opts(ctx.rng)[0]
+        envelope_opts = {'interp_method': ('splrep', 'splrep', 'pchip', 'mono_pchip')[i % 4]}
+        extrema_opts = {'pad_width': (1, 1, 2, 3)[(i // 2) % 4]}
+        fails, path = oracle_real(x, 1e-8, imf_opts, envelope_opts, extrema_opts)
+        if path == 'timeout':
+            ctx.discarded += 1
+            continue
+        ctx.count(('few-cycles', tuple(x), repr(imf_opts), repr(extrema_opts)), path == 'own-accord', 'real-few-cycles-%s' % path)
+        ctx.tol_cmp += 1
+        for f in fails[:1]:
+            ctx.problem('impl-violation', 'sift', f,
+                        input=dict(kind='real', signal=[float(v) for v in x], sift_thresh=1e-8, imf_opts=imf_opts,
+                                   envelope_opts=envelope_opts, extrema_opts=extrema_opts, dtype=None), tags=dict(mode='real', family='few-cycles'))
     if bad and not any(p['kind'] == 'impl-violation' for p in ctx.problems):
         inp, got, exp = bad[0]
         ctx.problem('correspondence-break', 'sift(toy)', 'model and implementation differ (%d disagreeing cases)' % len(bad), input=inp,
